@@ -225,6 +225,12 @@ def do_replay(prop: str, path: str) -> int:
         from .props import persist_loops
         persist_loops.replay(case)
         return 0
+    if "environment" in case:
+        # loads in a process in which an application has defined classes of its own (C14): the application's steps and
+        # the file, re-executed in a fresh interpreter, with an interpreter that only imports the library as control
+        from .props import persist_env
+        persist_env.replay(case)
+        return 0
     if "churn" in case:
         # C16: a registry of realistic size changed by a concurrent task k loop iterations after an anchor
         from .props import churn
